@@ -293,14 +293,24 @@ def content_equality(rep: Report, prog: Program) -> None:
             ('fggs.factors', 'ConstantFactor'): [{'domains'}, {'weight'}], ('fggs.factors', 'FiniteFactor'): [{'domains'}, {'weights', '_weights'}]}
     for (mod, cname), groups in want.items():
         ci = prog.cls(mod, cname)
-        f = ci.methods.get('__eq__')
-        if f is None:
+        f = prog.find_method(ci, '__eq__')          # possibly a template in a shared base class
+        identity_only = f is not None and not any(isinstance(n, ast.Compare) and isinstance(n.ops[0], (ast.Eq, ast.NotEq)) for n in own_nodes(f.node))
+        if f is None or identity_only:
             rep.ob(rule, ci.fq(), f"{cname}.__eq__ by content", f"{ci.module.relpath}:{ci.node.lineno}", False, f"{cname} inherits identity comparison")
             continue
         selfn, other = f.positional_params()[:2]
+
+        def reads_of(g, who, depth=0):
+            out = {n.attr for n in own_nodes(g.node) if isinstance(n, ast.Attribute) and isinstance(n.value, ast.Name) and n.value.id == who}
+            for n in own_nodes(g.node):
+                if isinstance(n, ast.Call) and isinstance(n.func, ast.Attribute) and isinstance(n.func.value, ast.Name) and n.func.value.id == who:
+                    out.add(n.func.attr)
+                    h = prog.find_method(ci, n.func.attr)          # a hook the concrete class overrides (`self._eq_key()`)
+                    if h is not None and depth < 2 and h.self_name():
+                        out |= reads_of(h, h.self_name(), depth + 1)
+            return out
         for who in (selfn, other):
-            reads = {n.attr for n in own_nodes(f.node) if isinstance(n, ast.Attribute) and isinstance(n.value, ast.Name) and n.value.id == who} | \
-                    {n.func.attr for n in own_nodes(f.node) if isinstance(n, ast.Call) and isinstance(n.func, ast.Attribute) and isinstance(n.func.value, ast.Name) and n.func.value.id == who}
+            reads = reads_of(f, who)
             miss = [sorted(g)[0] for g in groups if not (g & reads)]
             rep.ob(rule, f.fq(), f"{cname}.__eq__ reads {[sorted(g)[0] for g in groups]} of `{who}`", f.loc(), not miss, f"read: {sorted(reads)}" + (f"; not compared: {miss}" if miss else ''))
         # equality is about the tensor a factor denotes: weights are compared through the tensor interface, not through the
@@ -319,6 +329,41 @@ def content_equality(rep: Report, prog: Program) -> None:
             if '__eq__' in c.methods: n_eq += check_eq(rep, 'C20-D3 equality truth table', c.methods['__eq__'])
             if '__ne__' in c.methods: n_eq += check_ne(rep, 'C20-D3 equality truth table', c.methods['__ne__'])
     rep.floor('C20-D3 equality methods', n_eq, 8)
+    # a subclass constructor runs the base constructor that binds the shared attributes (Factor.domains), on every path
+    n_sup = 0
+    for mod in ('fggs.domains', 'fggs.factors'):
+        for c in prog.module(mod).classes.values():
+            ini = c.methods.get('__init__')
+            if ini is None:
+                continue
+            base_init = None
+            for b in prog.mro(c)[1:]:
+                if '__init__' in b.methods:
+                    base_init = b.methods['__init__']; break
+            if base_init is None:
+                continue
+            bsn = base_init.self_name()
+            binds = sorted({n.attr for n in own_nodes(base_init.node) if isinstance(n, ast.Attribute) and isinstance(n.ctx, ast.Store) and isinstance(n.value, ast.Name) and n.value.id == bsn})
+            if not binds:
+                continue
+            n_sup += 1
+            icfg = cfg_of(ini)
+            sn = ini.self_name()
+            def runs_base(k, icfg=icfg, sn=sn, binds=binds):
+                st = icfg.nodes[k].stmt
+                if icfg.nodes[k].kind != 'stmt' or st is None:
+                    return False
+                for x in ast.walk(st):
+                    if isinstance(x, ast.Call) and isinstance(x.func, ast.Attribute) and x.func.attr == '__init__' and isinstance(x.func.value, ast.Call) and callee_last(x.func.value) == 'super':
+                        return True
+                # or binds every one of those attributes itself
+                return False
+            own = {n.attr for n in own_nodes(ini.node) if isinstance(n, ast.Attribute) and isinstance(n.ctx, ast.Store) and isinstance(n.value, ast.Name) and n.value.id == sn}
+            ok, _ = icfg.all_paths_pass(icfg.entry, runs_base)
+            ok = ok or set(binds) <= own
+            rep.ob(rule, ini.fq(), f"{c.name}.__init__ runs {base_init.cls.name}.__init__ (binds {binds})", ini.loc(), ok,
+                   'on every path' if ok else f"a path constructs the object without {binds}: arity, shape and equality of the object are undefined")
+    rep.floor('C20-D3 base constructors', n_sup, 2)
     fd = prog.cls('fggs.domains', 'FiniteDomain')
     init = fd.methods['__init__']
     p0 = init.positional_params()[1]
@@ -334,6 +379,21 @@ def content_equality(rep: Report, prog: Program) -> None:
     okn = nb is not None and any(isinstance(n, ast.Return) and isinstance(n.value, ast.Subscript) and norm(n.value.value).endswith('._value_index') for n in own_nodes(nb.node))
     okd = dn is not None and any(isinstance(n, ast.Return) and isinstance(n.value, ast.Subscript) and norm(n.value.value).endswith('.values') for n in own_nodes(dn.node))
     rep.ob(rule, fd.fq(), 'numberize looks up the value index, denumberize the value list', f"{fd.module.relpath}:{fd.node.lineno}", okn and okd, '')
+    # RangeDomain: contains(v) iff 0 <= v < size (evaluated for v in -1..3 with size 2); numberize/denumberize are the identity
+    rd = prog.cls('fggs.domains', 'RangeDomain')
+    rc = rd.methods.get('contains')
+    if rc is not None:
+        from ..guards import Env as _Env
+        sn, vp = rc.positional_params()[:2]
+        size_terms = {f"{sn}._size", f"{sn}.size()"}
+        rets = [r.value for r in own_nodes(rc.node) if isinstance(r, ast.Return) and r.value is not None]
+        bad = []
+        for v in (-2, -1, 0, 1, 2, 3):
+            env = _Env(ints={vp: v, **{t: 2 for t in size_terms}})
+            got = {env.eval(r) for r in rets}
+            if got != {0 <= v < 2}:
+                bad.append(f"contains({v}) with size 2 gives {sorted(map(str, got))}")
+        rep.ob(rule, rc.fq(), 'RangeDomain.contains(v) iff 0 <= v < size', rc.loc(), len(rets) == 1 and not bad, '; '.join(bad) if bad else 'values -2..3 against size 2 agree')
     ff = prog.cls('fggs.factors', 'FiniteFactor').methods.get('apply')
     if ff is not None:
         selfn, vals = ff.positional_params()[:2]
